@@ -88,6 +88,21 @@ chk("C19", "exploration",
     "OrangeParams(A) and OrangeParams(B).", G_NOTE + " Geometries come from bundled files and the direct generator; the construction API source is added with C09.",
     "deterministic simulation: short-read/short-write stream faults + differential replay of navigation", "§5 C19", "G")
 
+I_NOTE = ("Trusted base: the harness, gcc 12 + ASan/UBSan, hand-built model data (no Geant4): Seltzer-Berger tables only for Z=29 and "
+          "Livermore/EADL only for Z=19 (the data shipped with the tests). Not run: Coulomb/Wentzel, CHIPS neutron elastic, hadron ionisation "
+          "for protons/alphas (need imported data that cannot be produced here). Energy balance tolerance 1e-11 relative; momentum 1e-6 "
+          "relative, judged only for models that return every product.")
+chk("C04", "exploration",
+    "Clients call 13 real interactors through their public headers. The simulator owns the random stream (seeded counting engine, "
+    "optionally forcing whole canonical draws to 0 or 1-2^-53 at seeded positions, 2e6 draw budget = bounded sampling), the secondary "
+    "storage (real StackAllocator whose free cells are set per call to 0..max needed: the allocation fault; occupied cells carry a "
+    "pattern) and the inputs (energy over the closed applicability interval incl. both end points and points 1e-6 inside them, directions "
+    "on the sphere incl. the poles, element/material, production cut, LPM/relaxation/Auger). Oracles per call: explicit failure iff too "
+    "few cells, with no secondaries, no deposit, stack size and occupied cells unchanged; otherwise allocation accounting, finite "
+    "non-negative energies, unit directions, defined particle ids, secondaries above the model's own threshold, energy balance with "
+    "2mc^2 per created/annihilated positron, momentum balance for closed two-body models, draw budget.",
+    I_NOTE, "deterministic simulation: allocation-fault and random-stream fault injection on an interactor bench with conservation oracle", "§5 C04", "I")
+
 chk("C08", "exploration",
     "Clients propagate e-, e+, mu-, p of 1 keV..100 GeV through uniform fields of 1e-3..20 T (any direction; z-aligned for the exact "
     "helix stepper) on bundled and generated geometries with the real FieldPropagator/FieldDriver and all three integrators, under "
